@@ -4,10 +4,10 @@ Proof      : coq/Props/C13.v (C13_prune_sound, C13_scan_equal, C13_bounds_true) 
              Gen/GenPrune.v, which is REGENERATED from filters._file_may_match on every run;
              C13_bound_roundtrip over Gen/GenBound.v (_encode_bound / _decode_bound);
              C13_manifest_roundtrip, C13_prune_sound_via_manifest, C13_scan_equal_via_manifest over
-             Gen/GenManifest.v, REGENERATED from FileManager.create_manifest_file / read_manifest_file (entry order,
+             Gen/GenManifest13.v, REGENERATED from FileManager.create_manifest_file / read_manifest_file (entry order,
              the per-record bounds expressions, the reader): any number of ADDED / EXISTING entries and columns, each
              DataFile comes back with its own bounds (value and type), so pruning on a manifest's bounds is sound.
-Tie        : translator (GenPrune, GenBound, GenManifest) + correspondence of every hand-written model piece with the code:
+Tie        : translator (GenPrune, GenBound, GenManifest13) + correspondence of every hand-written model piece with the code:
                prims    Python <,<=,== on values           vs Model/Value.v py_lt/py_le/py_eqb
                prune    filters._file_may_match            vs Model/Prune.v file_may_match (uses Gen)
                bounds   DataFileManager._compute_column_bounds vs Model/Prune.v bounds_of
@@ -15,7 +15,7 @@ Tie        : translator (GenPrune, GenBound, GenManifest) + correspondence of ev
                codec    _encode_bound's tag / _decode_bound's value vs Model/Bound.v enc / dec
                manifest real create_manifest_file -> raw Avro records -> read_manifest_file on multi-entry, multi-column
                         manifests (bounds of different columns / files equal as Python values but differently typed)
-                        vs Model/Manifest.v write_manifest / via_manifest, and the pruning decision on the DataFile read back
+                        vs Model/Manifest13.v write_manifest / via_manifest, and the pruning decision on the DataFile read back
 Oracle /   : implementation-only, independent of the model:
 search       unsound  real bounds of a multi-column file -> real manifest (sibling entries, ADDED / EXISTING) -> real
                         _file_may_match says skip -> real pyarrow selects a row
@@ -43,8 +43,8 @@ THEOREMS = ["C13_prune_sound", "C13_scan_equal", "C13_bounds_true", "C13_bound_r
             "C13_manifest_roundtrip", "C13_prune_sound_via_manifest", "C13_scan_equal_via_manifest"]
 REQ = ["DS.Model.Value", "DS.Gen.GenPrune", "DS.Model.Prune"]
 REQB = ["DS.Model.Value", "DS.Model.BoundPrim", "DS.Gen.GenBound", "DS.Model.Bound"]
-REQM = ["DS.Model.Value", "DS.Model.BoundPrim", "DS.Gen.GenBound", "DS.Model.Bound", "DS.Model.ManifestPrim", "DS.Gen.GenManifest",
-        "DS.Gen.GenPrune", "DS.Model.Prune", "DS.Model.Manifest"]
+REQM = ["DS.Model.Value", "DS.Model.BoundPrim", "DS.Gen.GenBound", "DS.Model.Bound", "DS.Model.ManifestPrim", "DS.Gen.GenManifest13",
+        "DS.Gen.GenPrune", "DS.Model.Prune", "DS.Model.Manifest13"]
 
 MANIFEST_ENTRY = {
     "level_text": "C13_prune_sound / C13_scan_equal / C13_bounds_true proved in Coq for every file content, schema, filter "
@@ -58,7 +58,7 @@ MANIFEST_ENTRY = {
                   "implementation-only oracles (real multi-column bounds -> real manifest -> real pruning -> real pyarrow; "
                   "every bound of a real manifest comes back type-faithfully; pruned vs unpruned scans over single appends, "
                   "multi-append transactions, partial deletes and retried commits) search for a failing input",
-    "level_note": "trusted: Coq kernel; translator/gen_prune.py, gen_bound.py, gen_manifest.py; assumption PA-exact (pyarrow "
+    "level_note": "trusted: Coq kernel; translator/gen_prune.py, gen_bound.py, gen_manifest13.py; assumption PA-exact (pyarrow "
                   "evaluates a filter exactly or raises; lossy is_in casts are an unconstrained oracle X); assumptions JSON-exact "
                   "and Avro-exact (json / fastavro give back the payloads, records and string maps they were given; validated "
                   "on real manifests every run); columns are kind-homogeneous; the harness runs the code faithfully",
@@ -992,7 +992,7 @@ def dfbs_coq(files: List[Tuple[Any, Any]]) -> str:
 
 
 def corr_manifest(ctx, bench: ManifestBench, cases: List[Dict[str, Any]]) -> None:
-    """The same multi-entry, multi-column manifests through the real writer / reader and through Model/Manifest.v:
+    """The same multi-entry, multi-column manifests through the real writer / reader and through Model/Manifest13.v:
          * what the writer puts into the Avro records (entry order, status, field-id keys, the type tag of every encoded bound)
            vs write_manifest;
          * the DataFiles read back (which fields, which value of which type) vs via_manifest;
@@ -1078,7 +1078,7 @@ def run(ctx) -> None:
     ctx.trusted_base += [
         "translator/gen_prune.py (Python ast -> Gallina for _file_may_match's try block; loop skeleton pinned by golden AST)",
         "translator/gen_bound.py (_encode_bound isinstance chain, _decode_bound tag dispatch; JSON wrapping pinned by golden AST)",
-        "translator/gen_manifest.py (create_manifest_file's entry order and per-record bounds expressions, read_manifest_file's record loop; "
+        "translator/gen_manifest13.py (create_manifest_file's entry order and per-record bounds expressions, read_manifest_file's record loop; "
         "everything else in the two functions that could touch a bound is checked fail-closed)",
         "assumption Avro-exact: fastavro gives back the list of records and their string maps as written (validated by the manifest oracle / correspondence on real manifests)",
         "assumption JSON-exact: json round trip of bool/int/float(NaN, inf, -0.0)/str payloads and isoformat/fromisoformat of naive temporals are exact (validated by the codec oracle)",
@@ -1088,7 +1088,7 @@ def run(ctx) -> None:
     ]
     ctx.assumptions += ["field ids unique within a schema (enforced by Schema.__post_init__)",
                         "bounds looked up under the id they were stored under (C11)"]
-    ok = ctx.proofs(THEOREMS, gen_files=["GenPrune.v", "GenBound.v", "GenManifest.v"])
+    ok = ctx.proofs(THEOREMS, gen_files=["GenPrune.v", "GenBound.v", "GenManifest13.v"])
     ctx.allow_axioms([])
     walls: Dict[str, float] = {}
 
